@@ -242,7 +242,7 @@ def InvariantPerLpOnDeposit (dust : Nat) : Prop :=
 def DepositWithdrawNoValue (dust : Nat) : Prop :=
   ∀ (cfg : SsCfg) (s s1 s2 : SsSt) (u a b : Nat), cfg.dec0 ≤ 18 → cfg.dec1 ≤ 18 → Reachable cfg s →
     0 < s.sup → ssProvide cfg s u a b = .ok s1 →
-    ssWithdraw s1 u ((s1.user u).lp - (s.user u).lp) = .ok s2 →
+    ssWithdraw cfg s1 u ((s1.user u).lp - (s.user u).lp) = .ok s2 →
     ∀ D, InvLe (norm18 s.r0 cfg.dec0) (norm18 s.r1 cfg.dec1) (2 * cfg.amp) D →
       InvLe (norm18 s2.r0 cfg.dec0) (norm18 s2.r1 cfg.dec1) (2 * cfg.amp) (D - dust)
 
